@@ -671,7 +671,8 @@ def check_ssi_selection(facts, rep):
         for e in p.branches():
             if e.term == ('arg', 3):
                 red = (e.value != 0)
-        if red is None or p.ret[0] != 'tuple' or len(p.ret[1]) != 2:
+        comps = p.ret[1] if (p.ret[0] == 'tuple') else (p.ret[4] if (p.ret[0] == 'adt' and len(p.ret) == 5) else ())
+        if red is None or len(comps) != 2:
             rep.indet('E7b.K11: a returning path of khi::ssi::div does not branch on `reduced` or does not return a pair: %s' % show(p.ret, -1000)[:80])
             return
         r = 1 if red else 2
@@ -691,7 +692,7 @@ def check_ssi_selection(facts, rep):
             raise ValueError(show(t, -1000)[:60])
         idx = []
         try:
-            for comp in p.ret[1]:
+            for comp in comps:
                 c = strip(comp)
                 if not (c[0] == 'call' and c[1].split('::')[-1] == 'index' and len(c[2]) == 2):
                     raise ValueError('component ' + show(c, -1000)[:60])
